@@ -371,13 +371,22 @@ func (gb *gcpBalancer) newSubConnIfEmpty() {
 }
 
 // newSubConnBelowMax creates a new SubConn (see newSubConn) if the pool has capacity (either
-// unlimited or maxSize is not reached) and reports whether the pool had capacity. The size check
-// and the creation are done under the same lock, so concurrent picks cannot exceed maxSize.
+// unlimited or maxSize is not reached) and every READY channel of the pool is at its stream
+// watermark; reports whether that was the case. The checks and the creation are done under the
+// same lock, so concurrent picks cannot exceed maxSize.
 func (gb *gcpBalancer) newSubConnBelowMax() bool {
 	gb.mu.Lock()
 	defer gb.mu.Unlock()
 	if maxSize := gb.cfg.GetChannelPool().GetMaxSize(); maxSize != 0 && len(gb.scRefs) >= int(maxSize) {
 		return false
+	}
+	// The caller found every channel of its picker busy, but that picker may be an old one: a
+	// channel that became READY after it was built and still has room makes growing needless.
+	lowWatermark := int64(gb.cfg.GetChannelPool().GetMaxConcurrentStreamsLowWatermark())
+	for sc, ref := range gb.scRefs {
+		if gb.scStates[sc] == connectivity.Ready && int64(ref.getStreamsCnt()) < lowWatermark {
+			return false
+		}
 	}
 	gb.newSubConnLocked()
 	return true
